@@ -80,8 +80,44 @@ func mockConfig(c *cf.Case) *sarama.Config {
 	cfg.Producer.Return.Errors = true
 	cfg.ChannelBufferSize = c.Config.ChanBuf
 	cfg.Producer.Partitioner = partitionerCtor(c.Config.Partitioner)
+	if c.Config.Partitioner == "bad" {
+		cfg.Producer.Partitioner = func(t string) sarama.Partitioner {
+			return &refusingPartitioner{inner: sarama.NewRoundRobinPartitioner(t)}
+		}
+	}
 	return cfg
 }
+
+// refusingPartitioner fails for designated messages (those whose id is 2 modulo 5) and is a round-robin otherwise.
+type refusingPartitioner struct{ inner sarama.Partitioner }
+
+func (p *refusingPartitioner) RequiresConsistency() bool { return false }
+func (p *refusingPartitioner) Partition(m *sarama.ProducerMessage, n int32) (int32, error) {
+	if id := mockMsgID(m); id >= 0 && id%5 == 2 {
+		return 0, fmt.Errorf("partitioner refuses m%d", id)
+	}
+	return p.inner.Partition(m, n)
+}
+
+func mockMsgID(m *sarama.ProducerMessage) int {
+	if m == nil || m.Value == nil {
+		return -1
+	}
+	b, err := m.Value.Encode()
+	if err != nil || len(b) < 2 || b[0] != 'm' {
+		return -1
+	}
+	id := 0
+	for _, ch := range b[1:] {
+		if ch < '0' || ch > '9' {
+			return -1
+		}
+		id = id*10 + int(ch-'0')
+	}
+	return id
+}
+
+func mockRefused(c *cf.Case, id int) bool { return c.Config.Partitioner == "bad" && id >= 0 && id%5 == 2 }
 
 func mockAsync(r *run) {
 	c := r.c
@@ -208,7 +244,7 @@ func mockAsync(r *run) {
 	if len(script) < n {
 		handled = len(script)
 	}
-	withOutcome, refuses := 0, 0
+	withOutcome, refuses, prefused := 0, 0, 0
 	single := len(senders) <= 1
 	for i, m := range msgs {
 		// expected outcome when the processing index is known
@@ -222,6 +258,18 @@ func mockAsync(r *run) {
 		if len(m.outcomes) >= 1 {
 			withOutcome++
 		}
+		if mockRefused(c, m.id) {
+			// its partitioner fails: if the message had an expectation, that error is its only outcome (the
+			// checker is not consulted); without one it gets none (judged by the outcome count below)
+			if len(m.outcomes) >= 1 {
+				prefused++
+				want := fmt.Sprintf("error:partitioner refuses m%d", m.id)
+				if m.outcomes[0] != want {
+					r.violate("C20.wrong-outcome-order", "mock async producer: message m%d could not be partitioned and must get %q, got %v", m.id, want, m.outcomes)
+				}
+			}
+			continue
+		}
 		if idx >= 0 && idx < len(script) {
 			kind := script[idx]
 			want := "success"
@@ -231,9 +279,6 @@ func mockAsync(r *run) {
 				refuses++
 			case kind == 1 || kind == 3:
 				want = "error:" + errScripted.Error()
-			}
-			if c.Config.Partitioner == "bad" {
-				continue
 			}
 			if len(m.outcomes) == 0 || m.outcomes[0] != want {
 				r.violate("C20.wrong-outcome-order", "mock async producer: message m%d was processed as #%d and must get %q, got %v", m.id, idx, want, m.outcomes)
@@ -246,7 +291,7 @@ func mockAsync(r *run) {
 			r.violate("C20.partition-choice", "mock async producer: partition %d outside the configured %d partitions", m.part, nparts)
 		}
 	}
-	if c.Config.Partitioner != "bad" && withOutcome != handled {
+	if withOutcome != handled {
 		r.violate("C20.double-outcome", "mock async producer: %d of %d messages with an expectation received an outcome", withOutcome, handled)
 	}
 	for i, m := range succOrder {
@@ -271,13 +316,14 @@ func mockAsync(r *run) {
 	} else if wantLeft == 1 && rep.count(fmt.Sprintf("but %d are left", len(script)-n)) != 1 {
 		r.violate("C20.reporter-calls", "mock async producer: leftover report does not say %d are left: %v", len(script)-n, rep.calls)
 	}
-	if c.Config.Partitioner != "bad" {
-		if got := rep.count("Check function returned an error"); got != refuses {
-			r.violate("C20.reporter-calls", "mock async producer: %d refusing checkers ran but %d checker reports", refuses, got)
-		}
-		if extra := len(rep.calls) - wantNoExp - wantLeft - refuses; extra != 0 {
-			r.violate("C20.reporter-calls", "mock async producer: %d unexpected reporter calls: %v", extra, rep.calls)
-		}
+	if got := rep.count("Check function returned an error"); got != refuses {
+		r.violate("C20.reporter-calls", "mock async producer: %d refusing checkers ran but %d checker reports", refuses, got)
+	}
+	if got := rep.count("Partitioner returned an error"); got != prefused {
+		r.violate("C20.reporter-calls", "mock async producer: %d messages could not be partitioned but %d partitioner reports", prefused, got)
+	}
+	if extra := len(rep.calls) - wantNoExp - wantLeft - refuses - prefused; extra != 0 {
+		r.violate("C20.reporter-calls", "mock async producer: %d unexpected reporter calls: %v", extra, rep.calls)
 	}
 }
 
@@ -318,7 +364,7 @@ func mockSync(r *run) {
 	}
 	next := 0 // next expectation in the reference FIFO
 	lastOff := int64(0)
-	refuses, noExp := 0, 0
+	refuses, noExp, prefused := 0, 0, 0
 	var sends []*cf.Op
 	for i := range c.Workload {
 		if c.Workload[i].Op == "send" {
@@ -358,21 +404,28 @@ func mockSync(r *run) {
 			}
 			var want error
 			okBefore := n
+			wantText := ""
 			for j := 0; j < n; j++ {
 				kind := script[next+j]
-				if kind >= 4 {
+				if mockRefused(c, sends[si-(n-1)+j].ID) {
+					wantText = fmt.Sprintf("partitioner refuses m%d", sends[si-(n-1)+j].ID)
+					prefused++
+				} else if kind >= 4 {
 					want = errChecker
 					refuses++
 				} else if kind == 1 || kind == 3 {
 					want = errScripted
 				}
-				if want != nil {
+				if want != nil || wantText != "" {
 					okBefore = j
 					break
 				}
 			}
 			next += n
-			if c.Config.Partitioner == "bad" {
+			if wantText != "" {
+				if err == nil || err.Error() != wantText {
+					r.violate("C20.wrong-outcome-order", "mock sync producer: SendMessages batch starting at m%d must return %q, got %v", op.ID, wantText, err)
+				}
 				continue
 			}
 			if err != want {
@@ -399,6 +452,13 @@ func mockSync(r *run) {
 		}
 		kind := script[next]
 		next++
+		if mockRefused(c, op.ID) {
+			prefused++
+			if wantText := fmt.Sprintf("partitioner refuses m%d", op.ID); err == nil || err.Error() != wantText {
+				r.violate("C20.wrong-outcome-order", "mock sync producer: message m%d could not be partitioned and must get %q, got %v", op.ID, wantText, err)
+			}
+			continue
+		}
 		var want error
 		switch {
 		case kind >= 4:
@@ -406,9 +466,6 @@ func mockSync(r *run) {
 			refuses++
 		case kind == 1 || kind == 3:
 			want = errScripted
-		}
-		if c.Config.Partitioner == "bad" {
-			continue
 		}
 		if err != want {
 			r.violate("C20.wrong-outcome-order", "mock sync producer: message m%d is #%d and must get %v, got %v", op.ID, next-1, want, err)
@@ -444,13 +501,14 @@ func mockSync(r *run) {
 	if got := rep.count("Insufficient expectations"); got != insufficient {
 		r.violate("C20.reporter-calls", "mock sync producer: %d batches without enough expectations but %d reports", insufficient, got)
 	}
-	if c.Config.Partitioner != "bad" {
-		if got := rep.count("Check function returned an error"); got != refuses {
-			r.violate("C20.reporter-calls", "mock sync producer: %d refusing checkers but %d reports", refuses, got)
-		}
-		if extra := len(rep.calls) - wantLeft - noExp - refuses - insufficient; extra != 0 {
-			r.violate("C20.reporter-calls", "mock sync producer: %d unexpected reporter calls: %v", extra, rep.calls)
-		}
+	if got := rep.count("Check function returned an error"); got != refuses {
+		r.violate("C20.reporter-calls", "mock sync producer: %d refusing checkers but %d reports", refuses, got)
+	}
+	if got := rep.count("Partitioner returned an error"); got != prefused {
+		r.violate("C20.reporter-calls", "mock sync producer: %d messages could not be partitioned but %d partitioner reports", prefused, got)
+	}
+	if extra := len(rep.calls) - wantLeft - noExp - refuses - insufficient - prefused; extra != 0 {
+		r.violate("C20.reporter-calls", "mock sync producer: %d unexpected reporter calls: %v", extra, rep.calls)
 	}
 }
 
@@ -466,6 +524,7 @@ func mockConsumer(r *run) {
 		yields   []string // "m<id>" or "e<id>"
 		consumed bool
 		expOff   int64
+		drainM, drainE bool
 	}
 	parts := map[int32]*pstate{}
 	var order []int32
@@ -476,6 +535,14 @@ func mockConsumer(r *run) {
 			if parts[op.Partition] == nil {
 				parts[op.Partition] = &pstate{pc: mc.ExpectConsumePartition("t", op.Partition, op.Offset), expOff: op.Offset}
 				order = append(order, op.Partition)
+				if opInt(&op, 0, 0) == 1 {
+					parts[op.Partition].pc.ExpectMessagesDrainedOnClose()
+					parts[op.Partition].drainM = true
+				}
+				if opInt(&op, 1, 0) == 1 {
+					parts[op.Partition].pc.ExpectErrorsDrainedOnClose()
+					parts[op.Partition].drainE = true
+				}
 			}
 		case "yield":
 			if ps := parts[op.Partition]; ps != nil {
@@ -519,6 +586,30 @@ func mockConsumer(r *run) {
 		}
 		wg.Add(1)
 		closeMode := op.N
+		leaveM, leaveE := opInt(&op, 0, 0), opInt(&op, 1, 0)
+		{
+			nm, ne := 0, 0
+			for _, y := range ps.yields {
+				if y[0] == 'm' {
+					nm++
+				} else {
+					ne++
+				}
+			}
+			if leaveM > nm {
+				leaveM = nm
+			}
+			if leaveE > ne {
+				leaveE = ne
+			}
+			// the first Close of this partition consumer (its own or the parent's) reports what was left
+			if ps.drainM && leaveM > 0 {
+				wantReports++
+			}
+			if ps.drainE && leaveE > 0 {
+				wantReports++
+			}
+		}
 		go func() {
 			defer wg.Done()
 			var gotM, gotE []string
@@ -531,7 +622,7 @@ func mockConsumer(r *run) {
 					ne++
 				}
 			}
-			for i := 0; i < nm; i++ {
+			for i := 0; i < nm-leaveM; i++ {
 				select {
 				case m := <-pc.Messages():
 					gotM = append(gotM, string(m.Value))
@@ -547,7 +638,7 @@ func mockConsumer(r *run) {
 					i = nm
 				}
 			}
-			for i := 0; i < ne; i++ {
+			for i := 0; i < ne-leaveE; i++ {
 				select {
 				case e := <-pc.Errors():
 					gotE = append(gotE, e.Err.Error())
@@ -563,18 +654,34 @@ func mockConsumer(r *run) {
 					wantE = append(wantE, y)
 				}
 			}
+			wantM, wantE = wantM[:len(wantM)-leaveM], wantE[:len(wantE)-leaveE]
 			if fmt.Sprint(gotM) != fmt.Sprint(wantM) {
 				r.violate("C20.wrong-outcome-order", "mock consumer: partition %d yielded %v, consumer saw %v", op.Partition, wantM, gotM)
 			}
 			if fmt.Sprint(gotE) != fmt.Sprint(wantE) {
 				r.violate("C20.wrong-outcome-order", "mock consumer: partition %d yielded errors %v, consumer saw %v", op.Partition, wantE, gotE)
 			}
-			if nm > 0 && pc.HighWaterMarkOffset() != last+1 {
+			if nm > 0 && leaveM == 0 && pc.HighWaterMarkOffset() != last+1 {
 				r.violate("C20.offset-sequence", "mock consumer: partition %d high-water mark %d, last offset %d", op.Partition, pc.HighWaterMarkOffset(), last)
 			}
 			if closeMode == 1 {
-				if err := pc.Close(); err != nil {
-					r.violate("C20.reporter-calls", "mock consumer: Close of a consumed, drained partition consumer returned %v", err)
+				err := pc.Close()
+				if leaveE == 0 && err != nil {
+					r.violate("C20.reporter-calls", "mock consumer: Close of a partition consumer whose errors were all read returned %v", err)
+				}
+				if leaveE > 0 {
+					if ce, ok := err.(sarama.ConsumerErrors); !ok || len(ce) != leaveE {
+						r.violate("C20.wrong-outcome-order", "mock consumer: Close of partition %d with %d unread errors returned %v", op.Partition, leaveE, err)
+					}
+				}
+				// a closed partition consumer hands out nothing more
+				select {
+				case m, ok := <-pc.Messages():
+					if ok {
+						r.violate("C20.wrong-outcome-order", "mock consumer: partition %d delivered %q after Close", op.Partition, m.Value)
+					}
+				default:
+					r.violate("C20.wrong-outcome-order", "mock consumer: Messages() of partition %d still open after Close", op.Partition)
 				}
 			}
 			k.logf("partition %d consumed %d messages %d errors", op.Partition, len(gotM), len(gotE))
